@@ -4,7 +4,7 @@
 Require Import ZArith List String Bool Reals.
 Import ListNotations.
 From GLMV Require Import Expr SemR Cat Comm Chk SpecLinAlg SpecProj SpecGeom.
-From W Require Gen_C12 P_C12 P_C12_b.
+From W Require Gen_C12 P_C12 P_C12_b P_C12_c.
 Local Open Scope string_scope.
 Local Open Scope Z_scope.
 
@@ -32,8 +32,16 @@ Theorem C12_faceforward_scalar : P_C12_b.faceforward_ok "s_faceforward" 1. Proof
 Theorem C12_gtx_length2_distance2 : Forall P_C12_b.len2_ok [1; 2; 3; 4]. Proof. exact P_C12_b.length2_def. Qed.
 Theorem C12_gtx_proj_perp : Forall P_C12_b.proj_ok [2; 3; 4]. Proof. exact P_C12_b.proj_def. Qed.
 Theorem C12_gtx_mixedProduct : P_C12_b.mixed_ok. Proof. exact P_C12_b.mixed_def. Qed.
+(* gtx/vector_angle: angle = acos(clamp(dot, -1, 1)) for vec2/3/4 and the scalar overload; orientedAngle carries the sign of the 2D cross product / of dot(ref, cross(x, y)) *)
+Theorem C12_gtx_angle_2 : P_C12_c.angle_ok 2. Proof. exact P_C12_c.angle_2. Qed.
+Theorem C12_gtx_angle_3 : P_C12_c.angle_ok 3. Proof. exact P_C12_c.angle_3. Qed.
+Theorem C12_gtx_angle_4 : P_C12_c.angle_ok 4. Proof. exact P_C12_c.angle_4. Qed.
+Theorem C12_gtx_angle_scalar : P_C12_c.s_angle_ok. Proof. exact P_C12_c.s_angle_def. Qed.
+Theorem C12_gtx_orientedAngle_2 : P_C12_c.oriented2_ok. Proof. exact P_C12_c.oriented2_def. Qed.
+Theorem C12_gtx_orientedAngle_3 : P_C12_c.oriented3_ok. Proof. exact P_C12_c.oriented3_def. Qed.
 Print Assumptions C12_dot_is_sum_of_products.
 Print Assumptions C12_normalize_3.
 Print Assumptions C12_reflect_formula_isometry_involution.
 Print Assumptions C12_refract_3.
 Print Assumptions C12_faceforward_4.
+Print Assumptions C12_gtx_orientedAngle_3.
